@@ -30,7 +30,7 @@ package main
 //	  h2eof        the connection closed without an answer     h2hugehdr    a 12 MB header block (beyond the client's limit)
 //	  h2longcl     more DATA than content-length announces
 //
-// The target is a pure function of the request (the script travels in the X-Script header): one shared listener.
+// The target is a pure function of the request (the script travels in the X-Script header).
 
 import (
 	"bytes"
@@ -49,25 +49,20 @@ import (
 	"verifharness/shot"
 )
 
-var (
-	h2rawMu   sync.Mutex
-	h2rawAddr []string
-	h2rawTurn int
-)
-
-func sharedH2Raw() string {
-	h2rawMu.Lock()
-	defer h2rawMu.Unlock()
-	if len(h2rawAddr) < 4 {
-		h2rawAddr = append(h2rawAddr, newH2Raw())
-		return h2rawAddr[len(h2rawAddr)-1]
-	}
-	h2rawTurn++
-	return h2rawAddr[h2rawTurn%len(h2rawAddr)]
+// h2rawTarget: one listener per engine run, closed (with every connection it accepted) when the run is over: the
+// guns registered by components/phttp/import are wrapped in a type without Close(), so the engine never closes their
+// HTTP/2 connections; a shared target would collect two descriptors per run until the driver runs out of them.
+type h2rawTarget struct {
+	l     net.Listener
+	Addr  string
+	mu    sync.Mutex
+	conns map[net.Conn]struct{}
+	done  bool
 }
 
-func newH2Raw() string {
+func newH2Raw() *h2rawTarget {
 	l := listenRetry()
+	t := &h2rawTarget{l: l, Addr: l.Addr().String(), conns: map[net.Conn]struct{}{}}
 	cfg := &tls.Config{Certificates: []tls.Certificate{selfSigned()}, NextProtos: []string{"h2"}}
 	go func() {
 		for {
@@ -75,10 +70,33 @@ func newH2Raw() string {
 			if err != nil {
 				return
 			}
-			go h2rawServe(tls.Server(c, cfg), c)
+			t.mu.Lock()
+			if t.done {
+				t.mu.Unlock()
+				_ = c.Close()
+				return
+			}
+			t.conns[c] = struct{}{}
+			t.mu.Unlock()
+			go func() {
+				h2rawServe(tls.Server(c, cfg), c)
+				t.mu.Lock()
+				delete(t.conns, c)
+				t.mu.Unlock()
+			}()
 		}
 	}()
-	return l.Addr().String()
+	return t
+}
+
+func (t *h2rawTarget) Close() {
+	_ = t.l.Close()
+	t.mu.Lock()
+	t.done = true
+	for c := range t.conns {
+		_ = c.Close()
+	}
+	t.mu.Unlock()
 }
 
 type h2rawConn struct {
